@@ -21,7 +21,7 @@ CHECKS = {
             "Bounded: digraphs <= 3 inner nodes, flow <= 6, k <= 4.", "z3; Euler spec (rank connectivity); per-edge multiplicity <= flow value for integer weights", "5/C04"),
     "C09": (MC, "z3-certified minimum cover on an independent spec vs get_width, LP_k feasibility of k-cover models, 'every optimal LP answer covers', Min* wrappers",
             "Bounded: DAGs <= 4 (5) nodes, digraphs <= 3 inner nodes (+ curated shapes up to 26 edges for the repetition bound), k <= 5; graph algorithms run concretely per enumerated graph.", "z3; spec encodings", "5/C09"),
-    "C12": (MC, "z3 on the LP rows produced by each helper on a raw SolverWrapper: soundness and completeness (canonical witness for auxiliaries) over all variable values; CrossHair drives a real SolverWrapper through every sequence of 2 (thorough: 3) bound/objective operations and compares the LP snapshot with the requested state",
+    "C12": (MC, "z3 on the LP rows produced by each helper on a raw SolverWrapper: soundness and completeness (canonical witness for auxiliaries) over all variable values; CrossHair drives a real SolverWrapper through every sequence of 2 (thorough: 3) bound/objective operations and compares the LP snapshot taken inside the real optimize() (with and without the custom time-out armed) with the requested state",
             "Bounds enumerated (they must be concrete to cross into HiGHS); values symbolic; operation sequences: 6 kinds x 3 variables x 3 values per step, length 2 (3).", "z3; highspy getLp()", "5/C12"),
     "C05": (TV, "captured LP under each optimisation vector vs the all-off baseline LP of the same instance: z3 equi-feasibility and equality of certified optima; honest results compared for Min* wrappers and shortcut routes",
             "Bounded: curated + sampled small instances, vectors = baseline, single toggles, defaults, all-on, seeded random (full product in thorough).", "z3; HiGHS honest runs for the wrappers", "5/C05"),
@@ -41,9 +41,9 @@ CHECKS = {
             "Bounded: DAGs <= 4 (5) nodes, digraphs <= 3 inner nodes; kernel sequences <= 4 over 3 names.", "z3; CrossHair; reference expansion written in the harness", "5/C11"),
     "C17": (MC, "CrossHair over symbolic histories of reachability queries on fresh graph objects and on the graph object held by a freshly built model (cold/warm caches) against a BFS oracle; z3 maximality query for the edge antichain; bottleneck peeling evaluated",
             "Bounded: DAGs <= 4 (5) nodes, digraphs <= 3 inner nodes, histories of 2 (3) queries over 5 addressed positions.", "CrossHair; z3; BFS oracle", "5/C17"),
-    "C18": (EX, "CrossHair enumerates symbolic histories of model constructions/solves that share the caller's argument objects; models run concretely (NoTracing); after every step caller data is compared with its pre-image and the result with a fresh-copy baseline",
+    "C18": (EX, "CrossHair enumerates symbolic histories of model constructions/solves that share the caller's argument objects; models run concretely (NoTracing); after every step caller data is compared with its pre-image and the result with a fresh-copy baseline; solve()/getters called twice on one object for every class (concrete)",
             "Exploration: histories of length 2 (3) over 11 (9) class variants x 3 sharing patterns on one DAG and one cyclic instance; plus every mutable default argument.", "CrossHair path enumeration; repr-based deep equality", "5/C18"),
-    "C13": (MC, "CrossHair symbolic execution of the real search loops / abstract solve() over a symbolic outcome sequence (status per solver invocation, clock increments), plus injection of inconclusive statuses and of the wrapper's own SIGALRM time-out at every solver invocation of the real classes (HX shim)",
+    "C13": (MC, "CrossHair symbolic execution of the real search loops / abstract solve() over a symbolic outcome sequence (status per solver invocation, clock increments), plus injection of inconclusive statuses and of the wrapper's own SIGALRM time-out at every solver invocation of the real classes (HX shim), also into a second solve() of an already solved object; getters of never-solved / unsolvable models must raise",
             "Bounded: <= 5 solver invocations, 5-status alphabet; 'Confirmed over all paths' per harness with reachability twin.", "CrossHair/z3; k-model stubs validated by injected runs on the real classes", "5/C13"),
     "C14": (MC, "CrossHair symbolic execution of the real get_solution_walks/_reconstruct_eulerian_walk with a symbolic multiplicity per edge of enumerated universe graphs",
             "Bounded: universes <= 4 inner nodes, <= 10 edges, multiplicity <= 3; 'Confirmed over all paths' with reachability twin.", "CrossHair/z3", "5/C14"),
